@@ -156,7 +156,7 @@ def mapping_cpp(i):
 def gen(rng, tier):
     progs, cases = [], []
     hist = collections.Counter()
-    npairs = 350 if tier == "quick" else 3000
+    npairs = scaled(350 if tier == "quick" else 3000)
     maxR = 3 if tier == "quick" else 4
     tries = 0
 
@@ -434,15 +434,10 @@ def judge(r, cfg):
     return out
 
 
-def run_property(prop, tier, seed, replay=None):
-    rep = Report(prop, tier, seed)
+def collect(rep, prop, tier, seed, exe, replay=None):
     rng = random.Random(seed * 15485863 + 11)
-    prove_section(rep, prop)
-    exe, log = build_model()
-    if exe is None:
-        rep.violation("the Coq model or its extraction no longer builds", {"obligation": "build:model", "log": log[-3000:], "signature": "build:model"}, True)
-        return rep.finish()
     configs = ["gcc23", "clang17"] if tier == "quick" else ["gcc23", "clang17", "gcc20", "clang20", "gcc17", "clang17-emu"]
+    configs = pick_configs(configs)
     if replay:
         rp = json.load(open(replay))
         pr = Prog(rp["call"], rp["program"]); pr.id = rp["case_tokens"][0]
@@ -480,11 +475,7 @@ def run_property(prop, tier, seed, replay=None):
                                   "signature": "V:%s:%s" % (r["prog"].desc, iss[0][0])}, no_failing_input=not any(x[2] for x in iss))
         if len(seen) >= 6:
             break
-    if getattr(rep, "proof_broken", False):
-        rep.violation("theorem(s) of %s no longer check: %s" % (prop, ", ".join(rep.broken_theorems) or "Properties file"),
-                      {"obligation": "proof:Properties_%s" % prop, "theorems": rep.broken_theorems, "log": rep.proof_log,
-                       "signature": "proof:%s" % prop}, no_failing_input=not any(not nf for (_, nf) in rep.violations))
-    rep.cov.update({
+    return {
         "evaluations": evaluations, "distinct_nontrivial": len(nontriv),
         "rule": "programs = ordered pairs (source mapping type, target mapping type) over layout x index type x pattern x padding, by conversion family "
                 "(same layout, left<->right / padded<->padded for rank<=1, anything->stride, stride->left/right/padded with canonical strides, padded->left/right with "
@@ -494,7 +485,19 @@ def run_property(prop, tier, seed, replay=None):
         "input_distribution": dict(sorted(hist.items())) if hist else {},
         "samples": [{"case": r["case_line"], "program": r["prog"].desc, "model": r["model_line"][:300]} for r in records[:: max(1, len(records) // 5)][:5]],
         "exhaustive": False,
-    })
+    }
+
+
+def run_property(prop, tier, seed, replay=None):
+    rep = Report(prop, tier, seed)
+    prove_section(rep, prop)
+    exe, log = build_model()
+    if exe is None:
+        rep.violation("the Coq model or its extraction no longer builds", {"obligation": "build:model", "log": log[-3000:], "signature": "build:model"}, True)
+        return rep.finish()
+    cov = collect(rep, prop, tier, seed, exe, replay)
+    from props_map import finish_common
+    finish_common(rep, prop, [cov])
     rep.assumptions = ["comparisons with layout_stride on the right-hand side exist only through C++20 rewritten candidates and are not compared"]
     prune_cache()
     return rep.finish()
